@@ -911,7 +911,7 @@ var strict bool // replay of an open finding: no narrowing
 
 var singleKinds = []string{"put", "put", "put", "put", "get", "get", "getchk", "head", "headchk", "headbucket", "range", "getif", "attrs", "copy", "copy", "delete", "delobjs",
 	"tagput", "tagget", "tagdel", "list", "list", "list1", "listbuckets", "policyput", "policyget", "policydel", "ownput", "ownget", "aclput", "aclget",
-	"verget", "verput", "listversions", "getnull", "headnull", "delnull", "getver", "getver", "headver", "headver", "delver", "versuspend", "verput", "missingget", "missingbucket", "mkbucket", "mpulist", "mpulistparts", "mpucomplete", "mpuabort", "mpupart", "btagput", "btagget", "btagdel", "mpuseq", "mpuseq", "mpuseq", "restart"}
+	"verget", "verput", "listversions", "getnull", "headnull", "delnull", "getver", "getver", "headver", "headver", "delver", "versuspend", "verput", "missingget", "missingbucket", "mkbucket", "mpulist", "mpulistparts", "mpucomplete", "mpuabort", "mpupart", "btagput", "btagget", "btagdel", "mpuseq", "mpuseq", "mpuseq", "verseq", "verseq", "restart"}
 
 func opsGen(thorough bool) *rapid.Generator[[]op] {
 	return rapid.Custom(func(t *rapid.T) []op {
@@ -937,6 +937,18 @@ func opsGen(thorough bool) *rapid.Generator[[]op] {
 					o.Mark = rapid.SampledFrom([]int{0, 0, 1, 1, 2, 3}).Draw(t, "mark")
 					o.Src = rapid.IntRange(0, len(keyNames)-1).Draw(t, "mark_key")
 				}
+			case "verseq":
+				// the life of one key in a bucket that keeps versions: two writes, a delete (a delete marker), then every
+				// version and the marker are read and HEADed by id, one of them is deleted by id, the key is read again
+				mk := func(kind string, meta int) op {
+					return op{Kind: kind, Key: o.Key, Who: o.Who, Seed: o.Seed, Meta: meta, Size: 100}
+				}
+				out = append(out, mk("put", 1), mk("put", 2), mk("delete", 0))
+				for j := 0; j < 3; j++ {
+					out = append(out, mk("getver", j), mk("headver", j))
+				}
+				out = append(out, mk("delver", rapid.IntRange(0, 2).Draw(t, "delver_which")), mk("get", 0), mk("listversions", 0))
+				continue
 			case "mpuseq":
 				// a whole upload on one key: create, parts (uploaded or copied), optional listings, an ending
 				who := o.Who
